@@ -293,6 +293,9 @@ func c19Gen(t *rapid.T, owner string, dseq uint64, minDep int64) (*dtypes.MsgCre
 			default:
 				msg.Deposit = cmCoin(minDep + 1)
 			}
+			if rapid.IntRange(0, 3).Draw(t, "unaffordable") == 0 {
+				msg.Deposit = cmCoin(2_000_000_000_000) // within the limits, but more than any account owns
+			}
 			note("deposit=%v", msg.Deposit)
 		case 13: // overflow when multiplied by the replica count
 			if u := pickUnit(); u != nil {
@@ -450,6 +453,12 @@ func (o *cmC19) afterTx(m *chainMachine, tx *cmTx) {
 		if !tx.ok {
 			if d := cmRawDiff(tx.pre, tx.post); len(d) > 0 {
 				m.fatalf("c19-rejected-with-effect", "%s was rejected but changed state: %v", tx.label, d)
+			}
+		} else {
+			// "the deployment carries ... at least the minimum deposit": the deposit it declared is in escrow
+			a, found := tx.post.account(dtypes.EscrowAccountForDeployment(msg.ID))
+			if !found || a.Balance.Amount.Add(a.Transferred.Amount).LT(msg.Deposit.Amount) || a.Balance.Amount.Add(a.Transferred.Amount).LT(minDep.Amount) {
+				m.fatalf("c19-admitted-without-deposit", "%s was ADMITTED but its escrow account holds %s (found=%v), declared deposit %s, minimum %s", tx.label, fmtAcc(a, found), found, msg.Deposit, minDep)
 			}
 		}
 	}
